@@ -47,7 +47,7 @@ type c05Plan struct {
 	Seed    uint64     `json:"seed"`
 	Forks   string     `json:"forks"`
 	Blocks  []c05Block `json:"blocks"`
-	Deliver []int      `json:"deliver"` // block indices; -1 = restart
+	Deliver []int      `json:"deliver"` // block indices; -1 = restart; 1000+i = the branch ending at block i arrives through the sync path
 	Crash   bool       `json:"crash"`   // enumerate crash points inside deliveries
 }
 
@@ -67,11 +67,11 @@ func (c05) Budget(tier string) runner.Budget {
 
 func (c05) Describe() runner.Description {
 	return runner.Description{
-		Rule:        "each plan: a seeded tree of 2..12 valid blocks (<=3 siblings per parent; different/equal TotalQN, higher/lower/equal prove value, with and without transfer transactions, siblings sharing transactions) generated with the node's own cast/verify/assemble API, then delivered to a fresh node in a seeded order with duplicates, orphans-before-parents, re-deliveries and restarts; the deliveries between two restarts run as one task of the seeded scheduler, so that a goroutine the node starts while handling a delivery is a task interleaved with the following deliveries. evaluations = invariant evaluations: after every delivery on the live node, and - fault enumeration - on a new incarnation booted from the disk image after EVERY individual store write of every delivery that wrote (exhaustive per plan). Invariant: head reachable from genesis by parent links; height index = that chain (cache bypassed and cached); nothing indexed above the head; verify-hash exactly up to the head; persisted head record = head; head state opens and fully resolves; no add/remove mark at quiescence; without crash the head only moves to a chain of not-lower weight (TotalQN, then prove value, then hash at the fork point); after a crash inside a head change the head is the old head, the new head or a common ancestor; transactions of canonical blocks are executed with a receipt naming their canonical block, those of removed blocks are not executed and (live) pending again; after the crash the restarted node accepts a valid extension of its head. distinct_nontrivial = distinct (tree shape, delivery order, crash index) triples whose delivery changed the head.",
+		Rule:        "each plan: a seeded tree of 2..12 valid blocks (<=3 siblings per parent; different/equal TotalQN, higher/lower/equal prove value, with and without transfer transactions, siblings sharing transactions) generated with the node's own cast/verify/assemble API, then delivered to a fresh node in a seeded order with duplicates, orphans-before-parents, re-deliveries and restarts; in about a third of the plans one branch arrives through the sync path instead (a fork store rooted at the common ancestor, every block verified and executed on the fork, then merged: blockChainFork.triggerOnChain), as one delivery; the deliveries between two restarts run as one task of the seeded scheduler, so that a goroutine the node starts while handling a delivery is a task interleaved with the following deliveries. evaluations = invariant evaluations: after every delivery on the live node, and - fault enumeration - on a new incarnation booted from the disk image after EVERY individual store write of every delivery that wrote (exhaustive per plan). Invariant: head reachable from genesis by parent links; height index = that chain (cache bypassed and cached); nothing indexed above the head; verify-hash exactly up to the head; persisted head record = head; head state opens and fully resolves; no add/remove mark at quiescence; without crash the head only moves to a chain of not-lower weight (TotalQN, then prove value, then hash at the fork point); after a crash inside a head change the head is the old head, the new head or a common ancestor; transactions of canonical blocks are executed with a receipt naming their canonical block, those of removed blocks are not executed and (live) pending again; after the crash the restarted node accepts a valid extension of its head. distinct_nontrivial = distinct (tree shape, delivery order, crash index) triples whose delivery changed the head.",
 		Assumptions: []string{"stub ConsensusHelper accepts group signatures / VRF (judged by C13-C16)", "crash = process death after a completed store write (no torn or lost writes)", "the pending pool is memory-only by design, so 'pending again' is asserted on the live node and for the block the restart rolls back"},
 		Real:        []string{"core/blockchain*.go (add, insert, remove, consistency repair, fork choice, verify, cast)", "service tx pool + executed store", "core/vmexecutor + executors (transfers, rewards, refunds)", "storage/account + trie on real goleveldb over simulated storage", "types wire codecs (block records)"},
-		Stub:        []string{"ConsensusHelper", "network / sync processor (not started)", "NTP clock"},
-		FaultKinds:  []string{"crash_after_store_write", "restart", "duplicate_delivery", "orphan_first", "reorg"},
+		Stub:        []string{"ConsensusHelper", "network / sync processor (not started; its fork-store merge is driven directly)", "NTP clock"},
+		FaultKinds:  []string{"crash_after_store_write", "restart", "duplicate_delivery", "orphan_first", "reorg", "sync_merge"},
 		Exhaustive:  true,
 	}
 }
@@ -153,6 +153,22 @@ func (c05) Gen(seed uint64, tier string) json.RawMessage {
 		}
 		if r.Chance(0.3) {
 			p.Deliver = append(p.Deliver, r.Intn(L)) // a loser of the reorg is delivered again
+		}
+		if r.Chance(0.3) {
+			// roles swapped, second branch through the sync path: the node holds the competitor's chain and
+			// then fetches the multi-block branch from a peer (fork store, verification on the fork, merge)
+			p.Deliver = nil
+			for i := 0; i < d; i++ {
+				p.Deliver = append(p.Deliver, i)
+			}
+			p.Deliver = append(p.Deliver, L)
+			if r.Chance(0.1) {
+				p.Deliver = append(p.Deliver, -1)
+			}
+			p.Deliver = append(p.Deliver, 1000+L-1)
+			if len(p.Blocks) > L+1 && r.Chance(0.5) {
+				p.Deliver = append(p.Deliver, L+1)
+			}
 		}
 		b, _ := json.Marshal(p)
 		return b
@@ -239,6 +255,25 @@ func (c05) Gen(seed uint64, tier string) json.RawMessage {
 	}
 	for s := r.Intn(4); s > 0; s-- { // late re-deliveries (orphans whose parent arrived meanwhile, losers of a reorg)
 		p.Deliver = append(p.Deliver, r.Intn(nb))
+	}
+	if r.Chance(0.3) {
+		// one branch arrives through the sync path; half of the time its blocks do not arrive singly at all
+		x := r.Intn(nb)
+		if r.Chance(0.5) {
+			var keep []int
+			for _, d := range p.Deliver {
+				onBranch := false
+				for y := x; y >= 0 && !onBranch; y = p.Blocks[y].Parent {
+					onBranch = y == d
+				}
+				if !onBranch || r.Chance(0.3) {
+					keep = append(keep, d)
+				}
+			}
+			p.Deliver = keep
+		}
+		at := r.Intn(len(p.Deliver) + 1)
+		p.Deliver = append(p.Deliver[:at], append([]int{1000 + x}, p.Deliver[at:]...)...)
 	}
 	b, _ := json.Marshal(p)
 	return b
@@ -562,6 +597,79 @@ func (c05) Exec(raw json.RawMessage, st *simrt.Stats, log *simrt.Log) *simrt.Vio
 		return nil
 	}
 
+	// syncDeliver: the branch ending at block x arrives the way the sync processor handles a chain piece of a
+	// peer: fork store rooted at the common ancestor with the local chain, verification on the fork, merge.
+	syncDeliver := func(i, x int) *simrt.Violation {
+		if x >= len(tree) {
+			return nil
+		}
+		var path []int
+		for y := x; y >= 0; y = tree[y].spec.Parent {
+			path = append([]int{y}, path...)
+		}
+		anc := n.Chain.QueryBlockByHash(k.gen.Hash)
+		first := 0
+		for j, y := range path {
+			h := tree[y].block.Header
+			if ch := n.Chain.QueryBlockHeaderByHeight(h.Height, false); ch != nil && ch.Hash == h.Hash {
+				if b := n.Chain.QueryBlockByHash(h.Hash); b != nil {
+					anc, first = b, j+1
+					continue
+				}
+			}
+			break
+		}
+		if anc == nil || anc.Header == nil {
+			return simrt.Violationf("C05", "head-not-linked-to-genesis", "sync-delivery", i, "the genesis block is not in the hash index")
+		}
+		var blocks []*types.Block
+		for _, y := range path[first:] {
+			blocks = append(blocks, node.CloneBlock(tree[y].block))
+			delivered[y] = true
+		}
+		oldHead := n.Chain.TopBlock().Hash
+		var mids []*simdisk.Disk
+		if p.Crash {
+			node.OnWrite = func(idx int, kind string) { mids = append(mids, disk.Clone()) }
+		}
+		w0 := node.Writes
+		verified, tried := core.SimSyncMerge(anc, blocks)
+		node.OnWrite = nil
+		nw := node.Writes - w0
+		newHead := n.Chain.TopBlock().Hash
+		st.Fault("sync_merge")
+		if tried {
+			st.Probe("sync_merge_tried")
+		}
+		log.Add("%d sync b%d: ancestor h=%d, %d blocks, %d verified on the fork, merge tried=%v writes=%d head %x -> %x", i, x, anc.Header.Height, len(blocks), verified, tried, nw, oldHead.Bytes()[:4], newHead.Bytes()[:4])
+		if v := c05Structure(n, k, i, "after-sync-delivery", true); v != nil {
+			return v
+		}
+		st.Evaluations++
+		if !k.weightNotLower(oldHead, newHead) {
+			return simrt.Violationf("C05", "head-moved-to-lower-weight", "after-sync-delivery", i, "head moved from %x (qn %d) to %x (qn %d), which is lower by (TotalQN, prove value, hash at the fork point)", oldHead.Bytes()[:6], k.header(oldHead).TotalQN, newHead.Bytes()[:6], k.header(newHead).TotalQN)
+		}
+		if newHead != oldHead {
+			isExt := false
+			for _, h := range k.ancestors(newHead) {
+				if h == oldHead {
+					isExt = true
+				}
+			}
+			if !isExt {
+				st.Fault("reorg")
+				st.Probe("sync_merge_reorg")
+				if v := removedPendingCheck(i, oldHead, newHead); v != nil {
+					return v
+				}
+			}
+		}
+		for j, m := range mids {
+			images = append(images, image{disk: m, ev: i, k: j + 1, w: len(mids), old: oldHead, new: newHead})
+		}
+		return nil
+	}
+
 	// the deliveries run as ONE task of the seeded scheduler: a goroutine the node starts while handling a
 	// delivery becomes a task that is interleaved with the following deliveries (instead of a real goroutine
 	// whose timing nobody controls)
@@ -577,6 +685,12 @@ func (c05) Exec(raw json.RawMessage, st *simrt.Stats, log *simrt.Log) *simrt.Vio
 					return v
 				}
 				st.Evaluations++
+				continue
+			}
+			if d >= 1000 {
+				if v := syncDeliver(i, d-1000); v != nil {
+					return v
+				}
 				continue
 			}
 			if d >= len(tree) {
@@ -757,7 +871,7 @@ func (c05) Shrink(raw json.RawMessage) []json.RawMessage {
 			q.Blocks = p.Blocks[:last]
 			q.Deliver = nil
 			for _, d := range p.Deliver {
-				if d != last {
+				if d != last && d != 1000+last {
 					q.Deliver = append(q.Deliver, d)
 				}
 			}
